@@ -123,11 +123,14 @@ let rvra r = let l = rz r in let a = rstr r in let s = rstr r in let v = rstr r 
   { ra_lines = l; ra_anchor = a; ra_scroll = s; ra_vanchor = v; ra_width = w }
 let pvra a = pz a.ra_lines; pstr a.ra_anchor; pstr a.ra_scroll; pstr a.ra_vanchor; pstr a.ra_width
 let rvregion r = let i = rstr r in let a = ropt_with rvra r in let f = ropt_with rvra r in { rg_id = i; rg_attr = a; rg_fb = f }
+(* the writer's input: the Regions and Styles maps are sent BY KEY, every key followed by 0 (nil value) or 1 and the value;
+   the model gets ALL the keys (style_order, region_order) and the association lists of the non-nil values *)
 let rvdoc r = let it = rlist rvitem r in
-  let rg = rlist (fun r -> let k = rstr r in let v = rvregion r in (k, v)) r in
-  let st = rlist (fun r -> let k = rstr r in let v = ropt_with (rlist rstr) r in (k, v)) r in
+  let rg = rlist (fun r -> let k = rstr r in let v = ropt_with rvregion r in (k, v)) r in
+  let st = rlist (fun r -> let k = rstr r in let v = ropt_with (ropt_with (rlist rstr)) r in (k, v)) r in
   let ts = ropt_with (fun r -> let a = rz r in let b = rz r in (a, b)) r in
-  { vd_items = it; vd_regions = rg; vd_styles = st; vd_tsmap = ts }
+  let somes l = List.filter_map (fun (k, v) -> match v with Some x -> Some (k, x) | None -> None) l in
+  ({ vd_items = it; vd_regions = somes rg; vd_styles = somes st; vd_tsmap = ts }, List.map fst st, List.map fst rg)
 let str_of_ns (s : n list) = String.concat "," (List.map (fun c -> string_of_int (int_of_n c)) s)
 let pvdoc d =
   plist pvitem d.vd_items;
@@ -214,8 +217,8 @@ let run_case (suite : string) (r : rd) : unit =
     let (l, tags') = parse_text_vtt line tags in
     pint 0; pvline l; plist pvtag tags'
   | "vttwritem" ->
-    let d = rvdoc r in
-    pres pstr (write_vtt_c d (List.map fst d.vd_styles) (List.map fst d.vd_regions))
+    let (d, so, ro) = rvdoc r in
+    pres pstr (write_vtt_c d so ro)
   | "convsv" ->
     let d = rstr r in
     let res = convert_srt_vtt d in
